@@ -45,8 +45,10 @@ func (f *File) SetMapping(codec *charcode.Codec, data map[charcode.Code]cid.CID)
 	for code, cid := range data {
 		buf = codec.AppendCode(buf[:0], code)
 		if f.Parent != nil {
-			parentCID := f.Parent.LookupCID(buf)
-			if parentCID == cid {
+			// what the lookup gives without an entry for this code (the
+			// parent chain, then the notdef entries of f and its ancestors)
+			inheritedCID := f.LookupCID(buf)
+			if inheritedCID == cid {
 				continue
 			}
 		}
